@@ -439,6 +439,44 @@ def body_flip(case, stats):
         stats.cls("parameter_invisible:{}.{}".format(kind, par))
 
 
+def _table_faults():
+    """Every table-valued parameter x every table fault x every entry position
+    (exhaustive axis): 1-row and 3-row tables."""
+    out = []
+    base_kw = {"VLoss": {}, "Converter": {"vo": 3.3}, "LinReg": {"vo": 3.3}, "PSwitch": {},
+               "PMux": {}, "Rectifier": {}}
+    pars = [("VLoss", "vdrop"), ("Converter", "eff"), ("LinReg", "ig"), ("PSwitch", "ig"),
+            ("PMux", "ig"), ("Rectifier", "vdrop"), ("Rectifier", "ig")]
+    for kind, par in pars:
+        for nv in (1, 3):
+            vis = [3.3, 5.0, 12.0][:nv]
+            ios = [0.1, 0.5, 0.9]
+            val = {"eff": 0.8, "vdrop": 0.3, "ig": 1e-3}[par]
+            tab = {"vi": vis, "io": ios, par: [[val * (1 + 0.05 * (r + c)) if par != "eff"
+                                                 else 0.7 + 0.03 * (r + c) for c in range(3)]
+                                                for r in range(nv)]}
+            kw = dict(base_kw[kind])
+            kw[par] = tab
+            out.append({"kind": kind, "kw": copy.deepcopy(kw), "mutation": None})
+            names = ["t_missing_key", "t_io_not_increasing", "t_rows_mismatch",
+                     "t_cols_mismatch", "t_flat"] + (["t_ragged"] if nv > 1 else [])
+            for nme in names:
+                for i0 in range(3):
+                    k2, m2 = mutate(kind, kw, nme, {"i0": i0, "i1": 0, "f0": 0.5})
+                    out.append({"kind": kind, "kw": k2, "mutation": m2})
+            entry = []
+            if par == "eff":
+                entry = ["eff_entry_le0", "eff_entry_gt1"]
+            elif par == "ig":
+                entry = ["t_neg_ig"]
+            for nme in entry:
+                for r in range(nv):
+                    for c in range(3):
+                        k2, m2 = mutate(kind, kw, nme, {"i0": r, "i1": c, "f0": 0.25})
+                        out.append({"kind": kind, "kw": k2, "mutation": m2})
+    return out
+
+
 def _flip_table():
     """Every (kind, magnitude parameter) pair at three fixed magnitudes (exhaustive axis)."""
     base = {
@@ -473,6 +511,7 @@ def _flip_table():
 def streams(tier, avoid):
     return [
         Stream("signflip_table", body_flip, cases=_flip_table()),
+        Stream("table_faults", body_reject, cases=_table_faults()),
         Stream("reject", body_reject, strategy=reject_cases(),
                n={"quick": 3000, "thorough": 20000}),
         Stream("signflip", body_flip, strategy=flip_cases(),
